@@ -57,7 +57,8 @@ func (vc *FnVC) evalBool(fr *frame, cur, old *state, e Expr, vars map[string]val
 		if r := recover(); r != nil {
 			if ee, ok := r.(evalErr); ok {
 				vc.eng.specError("%s: in %q: %s", vc.key, e.String(), string(ee))
-				res = "false"
+				// an unreadable clause is an unconstrained proposition: assuming it gives nothing, proving it fails
+				res = vc.freshConst("unreadable", "Bool")
 				return
 			}
 			panic(r)
@@ -119,6 +120,17 @@ func (c *evalCtx) lookupVar(name string) (val, bool) {
 		if sv, ok := c.fr.namedVals[name]; ok {
 			if v, ok := c.fr.vals[sv]; ok {
 				return val{t: v.t, typ: tMathInt}, true
+			}
+		}
+	}
+	// captured variable of a closure: the free variable is a pointer to the captured cell
+	if c.fr != nil && c.fr.fn != nil && c.fr.vals != nil {
+		for _, fv := range c.fr.fn.FreeVars {
+			if fv.Name() == name {
+				if pv, ok := c.fr.vals[fv]; ok {
+					lv := c.vc.deref(pv)
+					return val{t: c.vc.loadLV(c.st(), lv), typ: lv.typ}, true
+				}
 			}
 		}
 	}
